@@ -47,22 +47,22 @@ func init() {
 // node (node ID "M"); -2 nothing registered (unregistered certificate key /
 // unrelated fresh encryption pair)
 type nrCase struct {
-	Backend string `json:"backend"`               // inmem | ordered (harness NodeIdLoader)
-	Wrap    bool   `json:"storage_wrapper"`       //
-	RegWrap bool   `json:"registration_wrapper"`  // the server passes a registration wrapper to the library
-	NodeID  string `json:"node_id"`               // request field: "" | "N" | "M" | "unknown"
-	Indep   int    `json:"independent_records"`   // records enrolled independently under node ID N (>= 1)
-	Chain   int    `json:"chain"`                 // honest rotations performed before the request, starting from record 0
-	Prev    bool   `json:"previous_key_recorded"` // the application recorded the previous encryption key on every chain record
-	Lookup  []int  `json:"lookup"`                // records (and their order) the loader returns for node ID N
-	Named   int    `json:"named"`                 // record whose certificate key the request names
-	EncBy   int    `json:"enc_by"`                // record whose node credentials encrypted the payload
-	Payload string `json:"payload"`               // encrypted | plain | garbage | truncated | short-ct | ct-bitflip | ct-truncated
-	Inner   string `json:"inner"`                 // honest | registered-self | registered-other | token-marshaled | token-real | bad-signature | expired | future | (well-signed, unusual) wrapped-info | rewrapped-info | wrapper-flow | enc-key-short | enc-key-low-order
-	History string `json:"history"`               // single | replay | replay-old
+	Backend string `json:"backend"`                   // inmem | ordered (harness NodeIdLoader)
+	Wrap    bool   `json:"storage_wrapper"`           //
+	RegWrap bool   `json:"registration_wrapper"`      // the server passes a registration wrapper to the library
+	NodeID  string `json:"node_id"`                   // request field: "" | "N" | "M" | "unknown"
+	Indep   int    `json:"independent_records"`       // records enrolled independently under node ID N (>= 1)
+	Chain   int    `json:"chain"`                     // honest rotations performed before the request, starting from record 0
+	Prev    bool   `json:"previous_key_recorded"`     // the application recorded the previous encryption key on every chain record
+	Lookup  []int  `json:"lookup"`                    // records (and their order) the loader returns for node ID N
+	Named   int    `json:"named"`                     // record whose certificate key the request names
+	EncBy   int    `json:"enc_by"`                    // record whose node credentials encrypted the payload
+	Payload string `json:"payload"`                   // encrypted | plain | garbage | truncated | short-ct | ct-bitflip | ct-truncated
+	Inner   string `json:"inner"`                     // honest | registered-self | registered-other | token-marshaled | token-real | bad-signature | expired | future | (well-signed, unusual) wrapped-info | rewrapped-info | wrapper-flow | enc-key-short | enc-key-low-order
+	History string `json:"history"`                   // single | replay | replay-old
 	Rewrap  string `json:"inner_rewrapped,omitempty"` // self-valid: the inner request additionally carries registration info re-sealed, correctly, by the requesting node itself
-	Step    int    `json:"replay_step"`           // replay-old: which chain request is replayed
-	Param   int    `json:"param"`                 // byte position / length selector of the mutation
+	Step    int    `json:"replay_step"`               // replay-old: which chain request is replayed
+	Param   int    `json:"param"`                     // byte position / length selector of the mutation
 }
 
 const nrNone = -100
